@@ -21,7 +21,7 @@ class Producer(c04.Pipe):
         if reason not in ("quiescent", "livelock"):
             v.append(("end:" + reason, f"execution ended with {reason}"))
         for lvl, msg in W.log:
-            if lvl in ("ERROR", "CRITICAL"):
+            if lvl in ("ERROR", "CRITICAL") and not msg.startswith("Socket error"):
                 v.append((f"logged-error:{msg.strip().splitlines()[0].split(' ')[0]}", f"server logged: {msg.strip().splitlines()[0][:80]} ... {msg.strip().splitlines()[-1][:100]}"))
                 break
         if track["worst"] is not None:
@@ -35,6 +35,15 @@ class Producer(c04.Pipe):
                 v.append((f"parked-with-space:watermark={wm}", f"producer waits although only {ch.total_outbufs_len} bytes are pending (watermark {wm}, send_bytes {ctx['srv'].adj.send_bytes}, socket writable={sock.writable_now()})"))
             elif sock.writable_now() and not sock.closed:
                 v.append((f"parked-while-client-reads:send_bytes={ctx['srv'].adj.send_bytes}", f"producer waits with {ch.total_outbufs_len} bytes pending (watermark {wm}) and the socket is writable, but nobody sends (send_bytes={ctx['srv'].adj.send_bytes})"))
+        # teardown is the I/O thread's business, and nothing is accepted after it
+        bad = [n for n in sock.close_calls if n not in ("io", "main")]
+        if bad:
+            v.append(("socket-closed-by-worker", f"socket closed by {bad}"))
+        badm = [(k, fd, who) for k, fd, who in ctx["map"].mutations if who not in ("io", "main")]
+        if badm:
+            v.append(("map-edited-by-worker", f"socket map mutated off the I/O thread: {badm[:3]}"))
+        if sock.closed and ch.total_outbufs_len > 0:
+            v.append(("output-accepted-after-teardown", f"{ch.total_outbufs_len} bytes were accepted into the buffers of a connection that is already torn down (never released)"))
         # nothing reordered, duplicated or corrupted
         out = bytes(sock.out)
         want = ref[0]
@@ -81,6 +90,15 @@ def scenarios(tier):
     # pending output between the watermark and send_bytes when the client starts reading again
     for wm, sb, win in ((8, 100, 60), (1, 100, 90), (64, 100, 60)):
         S.append((f"wm={wm},sb={sb},window={win}:drain", dict(pre=one, workers=1, window=win, drains=[None], adj=dict(outbuf_high_watermark=wm, send_bytes=sb), programs=prog(8, 3)), 1))
+    # many writes much smaller than the mark (several buffer rotations while the client is slow)
+    for wm, w, k, win in ((64, 8, 12, 150), (32, 4, 14, 130)):
+        S.append((f"wm={wm},w={w}x{k},window={win}:drain", dict(pre=one, workers=1, window=win, drains=[20, None], adj=dict(outbuf_high_watermark=wm, send_bytes=1), programs=prog(w, k)), 1))
+        S.append((f"wm={wm},w={w}x{k},window={win}:stall", dict(pre=one, workers=1, window=win, drains=[20], adj=dict(outbuf_high_watermark=wm, send_bytes=1), programs=prog(w, k)), 0 if q else 1))
+    # a send error that is not a disconnect: the I/O thread closes through will_close, outside any flush
+    S.append(("wm=8,sb=1,w=8:send-error", dict(pre=one, workers=1, window=10, drains=[13, None], fault_menu=[22, -1], fault_sites=["send"], adj=dict(outbuf_high_watermark=8, send_bytes=1), programs=prog(8, 3)), 2))
+    S.append(("wm=64,sb=1,w=8:send-error", dict(pre=one, workers=1, window=10, drains=[None], fault_menu=[22, -1], fault_sites=["send"], adj=dict(outbuf_high_watermark=64, send_bytes=1), programs=prog(8, 4)), 1 if q else 2))
+    # two buffers pending while the producer is parked: a flush that drains below the mark and then fails
+    S.append(("wm=150,sb=1,w=8x5:send-error", dict(pre=one, workers=1, window=10, drains=[None], fault_menu=[22, -1], fault_sites=["send"], adj=dict(outbuf_high_watermark=150, send_bytes=1), programs=prog(8, 5)), 1 if q else 2))
     S.append(("wm=8,sb=1,w=8:drain,poll2", dict(pre=one, workers=1, window=10, drains=[13, None], poll2=True, adj=dict(outbuf_high_watermark=8, send_bytes=1), programs=prog(8, 3)), 1 if q else 2))
     S.append(("wm=8,sb=1,w=8:eof", dict(pre=one, workers=1, window=10, drains=[13, "eof"], adj=dict(outbuf_high_watermark=8, send_bytes=1), programs=prog(8, 3)), 1 if q else 2))
     S.append(("wm=8,sb=1,w=8:drain,bound2", dict(pre=one, workers=1, window=10, drains=[13, None], adj=dict(outbuf_high_watermark=8, send_bytes=1), programs=prog(8, 2)), 2))
